@@ -175,6 +175,7 @@ def run(chk):
         for blk, t in e.calls_to(r"Vec::<T, A>::extend_from_slice$|Extend<.*>>::extend$"):
             events.append((blk, "extend", describe(prog, e, t["args"][1]), t["args"][1]))
         stores = {}
+        store_stmt = {}
         for blk_i, blk in enumerate(e.blocks):
             for s_ in blk["stmts"]:
                 if "pl" in s_ and s_["pl"]["p"] and s_["pl"]["p"][0][0] == "d" and s_["rv"]["k"] in ("bin", "use"):
@@ -186,6 +187,7 @@ def run(chk):
                             idx = iv[1] if iv[0] == "lit" else None
                     if idx is not None:
                         stores.setdefault(idx, []).append((blk_i, core.describe_rv(prog, e, s_["rv"])))
+                        store_stmt[(blk_i, idx)] = s_
         inits = [describe(prog, e, t["args"][1]) for blk, t in e.calls_to(r"vec::from_elem$")]
 
         def position(blk):
@@ -206,68 +208,98 @@ def run(chk):
         chk.ob("R5.header_bits", enc[0], "the two header bytes are written first (indexed stores into vec![0; 2], or the first two pushes)", base is not None and len(byte[0]) == 1 and len(byte[1]) >= 1,
                f"initial buffer {inits}; byte 0 written at {len(byte[0])} site(s), byte 1 at {len(byte[1])}")
 
-        def shl_terms(d):
-            """{shift amount: field name} over the `|`-terms of a header byte, plus the unshifted terms."""
-            out, plain = {}, []
+        from .. import bits as _bits
 
-            def field_name(x):
-                x = panics._strip(x)
-                for y in core.desc_nodes(x) if hasattr(core, "desc_nodes") else []:
-                    pass
-                names = []
+        def bit_names(blk, operand):
+            """Names of the 8 bit sources of a header byte: 0/1, ('fin',0), ('rsv',k,0), ('opcode',i), ('mask',0), ('length',i), or None."""
+            lo, hi = length_interval(blk)
 
-                def walk(z):
-                    if isinstance(z, tuple):
-                        if z[0] == "field" and isinstance(z[2], int) and z[1][0] in ("param",):
-                            names.append(next((k for k, v in fi.items() if v == z[2]), None))
-                        if z[0] == "index" and isinstance(z[1], tuple):
-                            walk(z[1])
-                            names.append(("idx", z[2][1] if isinstance(z[2], tuple) and z[2][0] == "lit" else None))
-                            return
-                        for w_ in z[1:]:
-                            walk(w_)
-                    elif isinstance(z, list):
-                        for w_ in z:
-                            walk(w_)
-                walk(x)
-                return tuple(n for n in names if n is not None)
-
-            def rec(x):
-                if isinstance(x, tuple) and x[0] == "bin" and x[1] == "BitOr":
-                    rec(x[2])
-                    rec(x[3])
-                elif isinstance(x, tuple) and x[0] == "bin" and x[1] in ("Shl", "ShlUnchecked") and x[3][0] == "lit":
-                    out[x[3][1]] = field_name(x[2])
-                elif isinstance(x, tuple) and x[0] == "lit":
-                    plain.append(("lit", x[1]))
+            def ub(d):
+                d_ = panics._strip(d)
+                if isinstance(d_, tuple) and d_[0] == "field" and d_[2] == li and hi is not None:
+                    return hi
+                return None
+            be_ = _bits.BitEval(prog, e, upper_bound=ub)
+            v = be_.operand(operand, 8)
+            if v is None:
+                return None
+            out = []
+            for s_ in (v + [0] * 8)[:8]:
+                if s_ in (0, 1) or s_ is None:
+                    out.append(s_)
+                    continue
+                d_ = panics._strip(be_.keys.get(s_[1]))
+                nm = None
+                if isinstance(d_, tuple) and d_[0] == "field" and isinstance(d_[2], int):
+                    nm = next((k for k, v_ in fi.items() if v_ == d_[2]), None)
+                    out.append((nm, s_[3]))
+                elif isinstance(d_, tuple) and d_[0] == "index" and isinstance(d_[1], tuple) and panics._strip(d_[1])[0] == "field":
+                    base = panics._strip(d_[1])
+                    nm = next((k for k, v_ in fi.items() if v_ == base[2]), None)
+                    out.append((nm, d_[2][1] if isinstance(d_[2], tuple) and d_[2][0] == "lit" else None, s_[3]))
                 else:
-                    plain.append(("val", field_name(x)))
-            rec(d)
-            return out, plain
+                    out.append(("?", core.short(str(d_))[:40]))
+            return out
+        ops_by_blk = {}
+        for blk_i, blk in enumerate(e.blocks):
+            for s_ in blk["stmts"]:
+                if "pl" in s_ and s_["pl"]["p"] and s_["pl"]["p"][0][0] == "d" and s_["rv"]["k"] in ("bin", "use"):
+                    ops_by_blk.setdefault(blk_i, []).append(s_)
+        ev_op = {ev[0]: ev[3] for ev in events if ev[1] == "push"}
+
+        def byte_bits(blk, idx):
+            if blk in ev_op and base == 0:
+                return bit_names(blk, ev_op[blk])
+            for s_ in ([store_stmt[(blk, idx)]] if (blk, idx) in store_stmt else []):
+                # evaluate the stored rvalue through a temporary: the statement's own rvalue
+                be_tmp = None
+                lo, hi = length_interval(blk)
+
+                def ub(d):
+                    d_ = panics._strip(d)
+                    if isinstance(d_, tuple) and d_[0] == "field" and d_[2] == li and hi is not None:
+                        return hi
+                    return None
+                be_ = _bits.BitEval(prog, e, upper_bound=ub)
+                v = be_.rvalue(s_["rv"], 8)
+                if v is None:
+                    continue
+                outb = []
+                for x in (v + [0] * 8)[:8]:
+                    if x in (0, 1) or x is None:
+                        outb.append(x)
+                        continue
+                    d_ = panics._strip(be_.keys.get(x[1]))
+                    if isinstance(d_, tuple) and d_[0] == "field" and isinstance(d_[2], int):
+                        outb.append((next((k for k, v_ in fi.items() if v_ == d_[2]), None), x[3]))
+                    elif isinstance(d_, tuple) and d_[0] == "index" and isinstance(d_[1], tuple) and panics._strip(d_[1])[0] == "field":
+                        b0 = panics._strip(d_[1])
+                        outb.append((next((k for k, v_ in fi.items() if v_ == b0[2]), None), d_[2][1] if isinstance(d_[2], tuple) and d_[2][0] == "lit" else None, x[3]))
+                    else:
+                        outb.append(("?", core.short(str(d_))[:40]))
+                return outb
+            return None
+        want0 = [("opcode", 0), ("opcode", 1), ("opcode", 2), ("opcode", 3), ("rsv", 2, 0), ("rsv", 1, 0), ("rsv", 0, 0), ("fin", 0)]
         for blk, d in byte[0]:
-            sh, plain = shl_terms(d)
-            want = {7: ("fin",), 6: ("rsv", ("idx", 0)), 5: ("rsv", ("idx", 1)), 4: ("rsv", ("idx", 2))}
-            chk.ob("R5.header_bits", enc[0], "byte 0 is fin<<7 | rsv0<<6 | rsv1<<5 | rsv2<<4 | opcode", sh == want and plain == [("val", ("opcode",))],
-                   f"byte 0 = {sh} | {plain}", where=e.where(blk))
+            got = byte_bits(blk, 0)
+            chk.ob("R5.header_bits", enc[0], "byte 0 is fin<<7 | rsv0<<6 | rsv1<<5 | rsv2<<4 | opcode", got == want0, f"byte 0 bits (lsb first) = {got}", where=e.where(blk))
         seen_classes = {}
         for blk, d in byte[1]:
-            sh, plain = shl_terms(d)
+            got = byte_bits(blk, 1)
             lo, hi = length_interval(blk)
-            ok_mask = sh == {7: ("mask",)}
             kind = None
-            if plain == [("val", ("length",))]:
-                kind = "7-bit length"
-                ok_cls = (lo, hi) == (0, 125)
-            elif plain == [("lit", 126)]:
-                kind = "marker 126"
-                ok_cls = (lo, hi) == (126, 65535)
-            elif plain == [("lit", 127)]:
-                kind = "marker 127"
-                ok_cls = (lo, hi) == (65536, None)
+            ok_mask = bool(got) and got[7] == ("mask", 0)
+            low = got[:7] if got else None
+            if low == [("length", i) for i in range(7)]:
+                kind, ok_cls = "7-bit length", (lo, hi) == (0, 125)
+            elif low == [(126 >> i) & 1 for i in range(7)]:
+                kind, ok_cls = "marker 126", (lo, hi) == (126, 65535)
+            elif low == [(127 >> i) & 1 for i in range(7)]:
+                kind, ok_cls = "marker 127", (lo, hi) == (65536, None)
             else:
                 ok_cls = False
             seen_classes[kind] = (lo, hi)
-            chk.ob("R5.header_bits", enc[0], f"byte 1 is mask<<7 | {kind or 'length-or-marker'}", ok_mask and kind is not None, f"byte 1 = {sh} | {plain}", where=e.where(blk))
+            chk.ob("R5.header_bits", enc[0], f"byte 1 is mask<<7 | {kind or 'length-or-marker'}", ok_mask and kind is not None, f"byte 1 bits (lsb first) = {got}", where=e.where(blk))
             chk.ob("R2.encoder", enc[0], f"{kind or 'byte 1 form'} is used exactly on its length range (shortest form)", ok_cls, f"used for lengths {lo}..{hi if hi is not None else 'max'}", where=e.where(blk))
         chk.ob("R2.encoder", enc[0], "the three length forms (7-bit, marker 126, marker 127) are all present", set(seen_classes) == {"7-bit length", "marker 126", "marker 127"}, f"{sorted(str(k) for k in seen_classes)}")
         # extended length bytes
@@ -290,17 +322,43 @@ def run(chk):
     if tfm:
         ti = next(i for i, x in enumerate(prog.structs["humphrey_ws::message::Message"]["fields"]) if x["name"] == "text")
         for blk, t in tfm.calls_to(r"frame::Frame::new$"):
-            op = describe(prog, tfm, t["args"][0])
-            facts = panics.cmp_facts(prog, tfm, blk)
-            val = [b_[1] for (a_, o_, b_) in facts if o_ == "==" and a_[0] == "field" and a_[2] == ti and b_[0] == "lit"]
-            want = {"Text": [True], "Binary": [False]}.get(op[2] if op[0] == "variant" else None)
-            chk.ob("R4.to_frame", tfm.path, f"Opcode::{op[2] if op[0]=='variant' else '?'} is chosen when text == {want[0] if want else '?'}", val == want,
-                   f"built when text == {val}", where=tfm.where(blk))
+            # (opcode variant, block where it is chosen): the argument itself, or the arms that assign the local it is copied from
+            leaves = []
+            l = core.op_local(t["args"][0])
+            seen_l = set()
+            while l is not None and l not in seen_l:
+                seen_l.add(l)
+                ds_ = tfm.defs().get(l, [])
+                if len(ds_) == 1 and ds_[0][2] == "assign" and ds_[0][3]["rv"]["k"] == "use" and core.op_local(ds_[0][3]["rv"]["o"]) is not None and not ds_[0][3]["rv"]["o"]["pl"]["p"]:
+                    l = core.op_local(ds_[0][3]["rv"]["o"])
+                    continue
+                if len(ds_) > 1:
+                    for d_ in ds_:
+                        if d_[2] == "assign" and d_[3]["rv"]["k"] == "agg" and d_[3]["rv"].get("variant"):
+                            leaves.append((d_[0], d_[3]["rv"]["variant"]))
+                break
+            if not leaves:
+                op = describe(prog, tfm, t["args"][0])
+                leaves = [(blk, op[2] if op[0] == "variant" else None)]
+            for lb, vname in leaves:
+                val = []
+                for (a_, o_, b_) in panics.cmp_facts(prog, tfm, lb):
+                    if o_ == "==" and a_[0] == "field" and a_[2] == ti and b_[0] == "lit":
+                        val.append(b_[1])
+                # `match self.text { true => .., false => .. }` is a switch on the field itself
+                for s_, lab, dd, info in core.guards_dominating(prog, tfm, lb):
+                    dd_ = panics._strip(dd)
+                    if lab in ("true", "false") and isinstance(dd_, tuple) and dd_[0] == "field" and dd_[2] == ti and (lab == "true") not in val:
+                        val.append(lab == "true")
+                want = {"Text": [True], "Binary": [False]}.get(vname)
+                chk.ob("R4.to_frame", tfm.path, f"Opcode::{vname or '?'} is chosen when text == {want[0] if want else '?'}", val == want,
+                       f"built when text == {val}", where=tfm.where(lb))
             pl = describe(prog, tfm, t["args"][1])
             pi = next(i for i, x in enumerate(prog.structs["humphrey_ws::message::Message"]["fields"]) if x["name"] == "payload")
             chk.ob("R4.to_frame", tfm.path, "frame payload is the message payload", desc_contains(pl, lambda y: y[0] == "field" and y[2] == pi), "")
         d0 = describe(prog, tfm, 0)
-        chk.ob("R4.to_frame", tfm.path, "returns the serialised frame (Vec<u8>::from(Frame))", desc_contains(d0, lambda y: y[0] == "call" and y[1].endswith("::into")), f"{panics.short_desc(d0)}")
+        chk.ob("R4.to_frame", tfm.path, "returns the serialised frame (Vec<u8>::from(Frame))", desc_contains(d0, lambda y: y[0] == "call" and (y[1].endswith("::into") or core.re.search(r"From<humphrey_ws::frame::Frame>( for std::vec::Vec<u8>)?>::from$|convert::From::from$", y[1]) is not None) and
+                             desc_contains(y[2], lambda z: z[0] == "call" and z[1].endswith("frame::Frame::new"))), f"{panics.short_desc(d0)}")
     fn = prog.bodies.get("humphrey_ws::frame::Frame::new")
     if fn:
         for blk in fn.blocks:
